@@ -19,6 +19,7 @@ import (
 	"strconv"
 	"strings"
 	"sync"
+	"syscall"
 	"time"
 
 	"verif/internal/core"
@@ -132,6 +133,8 @@ func argList(kind string) []string {
 		return []string{"Store", "Other:StoreMock"}
 	case "one":
 		return []string{}
+	case "flagslast":
+		return []string{"Store", "-stub"}
 	}
 	return nil
 }
@@ -142,12 +145,34 @@ func argList(kind string) []string {
 func moqEnv() []string {
 	var env []string
 	for _, e := range core.GoEnv() {
-		if strings.HasPrefix(e, "GOFLAGS=") {
+		if strings.HasPrefix(e, "GOFLAGS=") || (otherFsTmp != "" && strings.HasPrefix(e, "TMPDIR=")) {
 			continue
 		}
 		env = append(env, e)
 	}
+	if otherFsTmp != "" {
+		env = append(env, "TMPDIR="+otherFsTmp)
+	}
 	return env
+}
+
+// otherFsTmp: a temporary directory on ANOTHER file system than the scratch
+// modules (tmpfs /dev/shm), handed to moq as TMPDIR: an implementation that
+// stages its output in the system temporary directory and renames it into
+// place meets EXDEV here, as it does on machines where /tmp is its own mount.
+var otherFsTmp string
+
+func setupOtherFsTmp(base string) func() {
+	var a, b syscall.Stat_t
+	if syscall.Stat("/dev/shm", &a) != nil || syscall.Stat(base, &b) != nil || a.Dev == b.Dev {
+		return func() {}
+	}
+	d, err := os.MkdirTemp("/dev/shm", "verif-tmp-")
+	if err != nil {
+		return func() {}
+	}
+	otherFsTmp = d
+	return func() { os.RemoveAll(d); otherFsTmp = "" }
 }
 
 type snapEntry struct {
@@ -200,6 +225,14 @@ func (r *runner) layout(dir string, sc Scenario) error {
 		core.WriteFile(filepath.Join(dir, "lib", "go.mod"), []byte("module example.com/lib\n\ngo 1.24\n"))
 		core.WriteFile(filepath.Join(dir, "lib", "lib.go"), []byte("package lib\n\ntype Key string\n"))
 	}
+	switch sc.Mod {
+	case "nobody":
+		core.WriteFile(filepath.Join(dir, "p", "nobody.go"), []byte("package p\n\nfunc implementedElsewhere(n int) int\n"))
+	case "typeerr":
+		core.WriteFile(filepath.Join(dir, "p", "typeerr.go"), []byte("package p\n\nvar limit int = \"ten\"\n"))
+	case "badimport":
+		core.WriteFile(filepath.Join(dir, "p", "badimport.go"), []byte("package p\n\nimport _ \"climod.test/c/nosuchpackage\"\n"))
+	}
 	if err := core.WriteFile(filepath.Join(dir, "go.mod"), []byte(gomod)); err != nil {
 		return err
 	}
@@ -223,6 +256,8 @@ func (r *runner) outRel(sc Scenario) string {
 		return filepath.Join("gen", "deep", "mocks", "store_mock.go")
 	case "otherpkg":
 		return filepath.Join("mocks", "store_mock.go")
+	case "longname":
+		return filepath.Join("p", strings.Repeat("x", 240)+"_mock.go")
 	}
 	return ""
 }
@@ -249,6 +284,12 @@ func (r *runner) cmdline(sc Scenario, spelling, root string) (args []string, cwd
 		src = "./p"
 		if out != "" {
 			out = "./" + out
+		}
+	case "symdotdot":
+		// p/lnk is a symbolic link to ../q: the kernel resolves p/lnk/.. to the module
+		// root, a lexical clean-up of the path resolves it to p
+		if out != "" {
+			out = filepath.Join("p", "lnk") + "/../" + out
 		}
 	}
 	switch sc.Flag {
@@ -382,6 +423,9 @@ func (r *runner) runOnce(id int, pred Pred, spelling string) (*Rec, error) {
 	if rel := r.outRel(sc); rel != "" {
 		outAbs = filepath.Join(root, rel)
 	}
+	if spelling == "symdotdot" {
+		os.Symlink("../q", filepath.Join(root, "p", "lnk"))
+	}
 	// what is at the -out path beforehand
 	switch sc.Prior {
 	case "empty":
@@ -480,7 +524,7 @@ func (r *runner) runOnce(id int, pred Pred, spelling string) (*Rec, error) {
 	st := se.String()
 	o.CrashText = strings.Contains(st, "panic:") || strings.Contains(st, "fatal error:") || strings.Contains(st, "goroutine 1 [")
 	for _, a := range argList(sc.Args) {
-		if strings.HasPrefix(a, "NoSuch") || a == "NotIface" {
+		if strings.HasPrefix(a, "NoSuch") || a == "NotIface" || a == "-stub" {
 			o.StderrNamesArg = strings.Contains(st, a)
 		}
 	}
@@ -536,6 +580,11 @@ func (r *runner) runOnce(id int, pred Pred, spelling string) (*Rec, error) {
 	for p, b := range before {
 		a, ok := after[p]
 		if allowed[p] {
+			// the output path and the directories above it may be created or rewritten,
+			// but a directory that was there before is still there afterwards
+			if b.Kind == "dir" && (!ok || a.Kind != "dir") && !(sc.Prior == "dir" && p == r.outRel(sc)) {
+				o.OtherChanged = append(o.OtherChanged, "directory removed: "+p)
+			}
 			continue
 		}
 		if !ok {
@@ -676,6 +725,27 @@ func flagsOf(args string) string {
 
 // mentionsPath: does a syscall's argument text name this path (absolute, or
 // relative to the directory the descriptor annotation shows)?
+// kresolve resolves a path the way the kernel does (symbolic links first, then
+// ".."), not lexically: the directory part through EvalSymlinks on the tree as
+// it still stands, the last element kept as written.
+func kresolve(p string) string {
+	i := strings.LastIndex(p, "/")
+	if i <= 0 {
+		return filepath.Clean(p)
+	}
+	dir, base := p[:i], p[i+1:]
+	if rd, err := filepath.EvalSymlinks(dir); err == nil {
+		if base == "" || base == "." {
+			return rd
+		}
+		if base == ".." {
+			return filepath.Dir(rd)
+		}
+		return filepath.Join(rd, base)
+	}
+	return filepath.Clean(p)
+}
+
 func mentionsPath(args, abs, root, cwd string) bool {
 	if strings.Contains(args, `"`+abs+`"`) {
 		return true
@@ -684,9 +754,9 @@ func mentionsPath(args, abs, root, cwd string) bool {
 	for _, m := range re.FindAllStringSubmatch(args, -1) {
 		p := m[2]
 		if !filepath.IsAbs(p) {
-			p = filepath.Join(m[1], p)
+			p = m[1] + "/" + p
 		}
-		if filepath.Clean(p) == abs {
+		if kresolve(p) == abs {
 			return true
 		}
 	}
@@ -800,6 +870,8 @@ func runCLIFiltered(prop, tier string, sc *core.Scratch, ev *core.Evidence, rep 
 	}
 	r := &runner{moq: moq, base: sc.Path("cli"), strace: straceWorks(moq), ref: map[string][]byte{}}
 	os.MkdirAll(r.base, 0o755)
+	defer setupOtherFsTmp(r.base)()
+	ev.Set("tmpdir_on_other_filesystem", otherFsTmp != "")
 	if !r.strace {
 		ev.Assume("ptrace unavailable: system-call level sub-claims (written once, unlink before load, foreign writes) not observed in this run")
 	}
@@ -816,7 +888,7 @@ func runCLIFiltered(prop, tier string, sc *core.Scratch, ev *core.Evidence, rep 
 		}
 		spellings := []string{""}
 		if p.Sc.Out != "stdout" && (p.Sc.Rm || tier == "thorough") && p.Sc.Args != "none" {
-			spellings = []string{"", "absout", "inpkg", "abssrc", "dotslash"}
+			spellings = []string{"", "absout", "inpkg", "abssrc", "dotslash", "symdotdot"}
 		}
 		for _, sp := range spellings {
 			id++
@@ -965,9 +1037,9 @@ func targetPaths(args, cwd string) []string {
 			if m[2] != "" {
 				base = m[2]
 			}
-			p = filepath.Join(base, p)
+			p = base + "/" + p
 		}
-		out = append(out, filepath.Clean(p))
+		out = append(out, kresolve(p))
 	}
 	return out
 }
